@@ -21,6 +21,12 @@ CHECKS.append(
      "level_note": "Trusted: the harness's Detector subclasses and its model of construction order; antenna is_hit itself (C09). += is not issued on a detector object nested in another live detector; keywords no sub-detector names are not generated (caller error).",
      "technique": TECH + "seeded composition/fault histories vs ordered-antenna-list model with per-step invariants"})
 
+CHECKS.append(
+    {"property_id": "C09", "category": "exploration", "design_ref": "DESIGN.md §4 C09",
+     "text": "Seeded search over histories on one long-lived Antenna / DipoleAntenna / AntennaSystem (FIR front end, lead-in 0, 3, 25, 25.5 samples), noisy and noiseless: receptions with overlapping, disjoint, nested and off-grid windows interleaved - by the simulator's PRNG, never by the harness itself - with waveform/trigger/full_waveform/is_hit_during/make_noise/signals queries, clears with and without noise reset, refused receives and a trigger collaborator that raises once. Oracles: one waveform per signal on its own grid; triggered list = trigger re-evaluated independently; is_hit; empty after clear; noiseless full_waveform = superposition of the stored signals through the front end; an absolute-time -> noise map per epoch that every observation must agree with.",
+     "level_note": "Trusted: antenna.signals[k] as produced by apply_response (C08 not rechecked); the harness's FIR front-end model; per-hit waveform values may be any reception-prefix superposition containing the hit. Test pulses taper to zero at their window edges (a jump at the edge would make the answer depend on rounding between time grids).",
+     "technique": TECH + "PRNG-scheduled query/receive/clear interleavings with refused-receive and raising-trigger faults vs bookkeeping model and absolute-time noise map"})
+
 NOT_APPLICABLE = [
     {"property_id": "C01", "reason": "pure function of (endpoints, ice parameters, dz): no state, randomness, I/O, schedule or fault for a simulator to control; needs an ODE/quadrature oracle (different technique)"},
     {"property_id": "C02", "reason": "metamorphic relations between pure function evaluations (swap/translate/rotate endpoints); no history or fault dimension (lazy-cache aspect of tracers is covered under C06)"},
@@ -32,7 +38,6 @@ NOT_APPLICABLE = [
     {"property_id": "C16", "reason": "pure functions of depth/frequency arrays and model parameters"},
     {"property_id": "C18", "reason": "pure geometric/metamorphic relations over inputs (image geometry, layer splitting)"},
     {"property_id": "C20", "reason": "statement about every attribute reference in the source against a dependency range: static resolution, not an execution under faults (its concrete instances on this tree were nevertheless repaired because they made the claimed properties fail)"},
-    {"property_id": "C09", "reason": "claimed in DESIGN.md; check under construction in this session"},
     {"property_id": "C10", "reason": "claimed in DESIGN.md; check under construction in this session"},
     {"property_id": "C11", "reason": "claimed in DESIGN.md; check under construction in this session"},
     {"property_id": "C12", "reason": "claimed in DESIGN.md; check under construction in this session"},
